@@ -127,6 +127,9 @@ def tz_text(off: int, style: str) -> str:
         return f'{sign}{a // 60:02d}'
     if style == 'compact':
         return f'{sign}{a // 60:02d}{a % 60:02d}'
+    if style == 'colon1':
+        # hour field not padded (`+9:30`): pandas / xarray read the offset, cftime on its own does not
+        return f'{sign}{a // 60}:{a % 60:02d}'
     return f'{sign}{a // 60:02d}:{a % 60:02d}'
 
 
